@@ -38,11 +38,14 @@ using namespace vfh;
 // ------------------------------------------------------------------------------------------------ helpers
 static std::string g_entry = "?";
 static int g_announce_fd = -1;
+static void (*g_after_entry)() = nullptr;   // cx_newfail.cpp: arms the allocation-failure injection once the input is parsed
+static bool g_no_iostream = false;          // cx_newfail.cpp: std::ostream swallows bad_alloc (badbit), so tree printing is skipped
 // names the public entry point of the current case; in a forked child the name is sent to the parent BEFORE the
 // operation runs, so that a crash/hang/sanitizer abort is attributed to the entry point.
 static void entry(const std::string& name) {
   g_entry = name;
   if (g_announce_fd >= 0) { std::string m = "@" + name + "\n"; ssize_t w = write(g_announce_fd, m.data(), m.size()); (void)w; }
+  if (g_after_entry) g_after_entry();
 }
 struct Digest {
   uint64_t h = 1469598103934665603ull; size_t n = 0;
@@ -149,7 +152,7 @@ static void run_case(Toks& t, std::ostream& os) {
         PolyTree64 tree; Paths64 open;
         ok = (mode & 2) ? clp.Execute((ClipType)ct_, (FillRule)fr, tree, open) : clp.Execute((ClipType)ct_, (FillRule)fr, tree);
         dg(open); walk_tree(tree, 0); dg(PolyTreeToPaths64(tree)); g_dg.add(CheckPolytreeFullyContainsChildren(tree)); g_dg.addd(tree.Area());
-        std::ostringstream tmp; tmp << tree; g_dg.add(tmp.str().size());
+        if (!g_no_iostream) { std::ostringstream tmp; tmp << tree; g_dg.add(tmp.str().size()); }
       } else {
         Paths64 closed, open;
         ok = (mode & 2) ? clp.Execute((ClipType)ct_, (FillRule)fr, closed, open) : clp.Execute((ClipType)ct_, (FillRule)fr, closed);
@@ -179,7 +182,7 @@ static void run_case(Toks& t, std::ostream& os) {
         PolyTreeD tree; PathsD open;
         ok = (mode & 2) ? clp.Execute((ClipType)ct_, (FillRule)fr, tree, open) : clp.Execute((ClipType)ct_, (FillRule)fr, tree);
         dg(open); walk_tree(tree, 0); dg(PolyTreeToPathsD(tree)); g_dg.addd(tree.Area());
-        std::ostringstream tmp; tmp << tree; g_dg.add(tmp.str().size());
+        if (!g_no_iostream) { std::ostringstream tmp; tmp << tree; g_dg.add(tmp.str().size()); }
       } else {
         PathsD closed, open;
         ok = (mode & 2) ? clp.Execute((ClipType)ct_, (FillRule)fr, closed, open) : clp.Execute((ClipType)ct_, (FillRule)fr, closed);
@@ -488,6 +491,78 @@ static std::string flat(const std::string& s, size_t lim) {
   return r;
 }
 
+struct Verdict { std::string status, ent, detail; long ms = 0; };
+
+// Runs body(out_fd) in a forked child (stderr captured) under the CPU-time / wall-clock / RSS watchdogs.
+// The child's exit code: 0 OK, 10 exception reached the caller, 77 leak, 78 "FAIL" (newfail), anything else = crash.
+template <typename F> static Verdict supervise(const std::string& line, long timeout_ms, long rss_lim, F body) {
+  Verdict v;
+  double t0 = now_ms();
+  std::cout.flush();
+  int po[2], pe[2];
+  if (pipe(po) != 0 || pipe(pe) != 0) { std::perror("pipe"); std::exit(3); }
+  pid_t pid = fork();
+  if (pid < 0) { std::perror("fork"); std::exit(3); }
+  if (pid == 0) {
+    close(po[0]); close(pe[0]);
+    dup2(pe[1], 2); close(pe[1]);
+    g_announce_fd = po[1];
+    struct rlimit rl; rl.rlim_cur = rl.rlim_max = 0; setrlimit(RLIMIT_CORE, &rl);
+    // hang detection is by CPU time (robust against a loaded machine): SIGXCPU after timeout_ms of CPU, SIGKILL 2 s later
+    rl.rlim_cur = (rlim_t)std::max(1L, (timeout_ms + 999) / 1000); rl.rlim_max = rl.rlim_cur + 2; setrlimit(RLIMIT_CPU, &rl);
+    int code = body(po[1]);
+    close(po[1]);
+    _exit(code);
+  }
+  close(po[1]); close(pe[1]);
+  std::string so, se; bool eo = false, ee = false; const char* killed = nullptr;
+  long peak = 0; double next_rss = t0 + 5;
+  while (!(eo && ee)) {
+    struct pollfd fds[2] = {{po[0], POLLIN, 0}, {pe[0], POLLIN, 0}};
+    int pr = poll(fds, 2, 10);
+    char buf[8192];
+    if (pr > 0) {
+      if (!eo && (fds[0].revents & (POLLIN | POLLHUP))) { ssize_t n = read(po[0], buf, sizeof buf); if (n <= 0) eo = true; else if (so.size() < (1u << 20)) so.append(buf, (size_t)n); }
+      if (!ee && (fds[1].revents & (POLLIN | POLLHUP))) { ssize_t n = read(pe[0], buf, sizeof buf); if (n <= 0) ee = true; else if (se.size() < (1u << 20)) se.append(buf, (size_t)n); }
+    }
+    double now = now_ms();
+    if (!killed && now >= next_rss) { long r = rss_mb(pid); if (r > peak) peak = r; next_rss = now + 20; if (r > rss_lim) { killed = "MEM"; kill(pid, SIGKILL); } }
+    if (!killed && now - t0 > 8.0 * timeout_ms) { killed = "HANG"; kill(pid, SIGKILL); }   // wall-clock backstop (blocked child)
+  }
+  close(po[0]); close(pe[0]);
+  int st = 0; waitpid(pid, &st, 0);
+  v.ms = (long)(now_ms() - t0);
+  // child output: zero or more "@entry\n" / "#progress\n" announcements followed by the result text
+  std::string ent = "?", det = so, progress;
+  while (!det.empty() && (det[0] == '@' || det[0] == '#')) {
+    size_t nl = det.find('\n'); if (nl == std::string::npos) break;
+    if (det[0] == '@') ent = det.substr(1, nl - 1); else progress = det.substr(1, nl - 1);
+    det = det.substr(nl + 1);
+  }
+  if (ent == "?" || ent.empty()) { Toks t(line); ent = t.more() ? "cmd." + t.next() : "?"; }   // died while parsing: use the command word
+  if (!progress.empty()) progress = "[" + progress + "] ";
+  bool san = se.find("runtime error:") != std::string::npos || se.find("Sanitizer") != std::string::npos;
+  if (killed) { v.status = killed; v.detail = progress + "rss_peak_mb=" + std::to_string(peak) + " " + flat(se, 1500); }
+  else if (WIFSIGNALED(st) && (WTERMSIG(st) == SIGXCPU || WTERMSIG(st) == SIGKILL)) { v.status = "HANG"; v.detail = progress + "cpu-limit signal=" + std::to_string(WTERMSIG(st)) + " " + flat(se, 1500); }
+  else if (WIFEXITED(st) && WEXITSTATUS(st) == 77) { v.status = "LEAK"; v.detail = flat(se, 6000); }
+  else if (san) { v.status = "SAN"; v.detail = progress + "exit=" + std::to_string(WIFEXITED(st) ? WEXITSTATUS(st) : -WTERMSIG(st)) + " " + flat(se, 6000); }
+  else if (WIFEXITED(st) && WEXITSTATUS(st) == 0) { v.status = "OK"; v.detail = det; }
+  else if (WIFEXITED(st) && WEXITSTATUS(st) == 10) { v.status = "EXC"; v.detail = det; }
+  else if (WIFEXITED(st) && WEXITSTATUS(st) == 78) { v.status = "FAIL"; v.detail = flat(det, 3000); }
+  else { v.status = "CRASH"; v.detail = progress + (WIFSIGNALED(st) ? "signal=" + std::to_string(WTERMSIG(st)) : "exit=" + std::to_string(WEXITSTATUS(st))) + " " + flat(se, 1500); }
+  v.ent = ent;
+  return v;
+}
+
+static void warm_up() {
+  // lazily initialised runtime state (locale caches, iostream) is created before accounting starts
+  run_line("B64 1 0 1 0 3 0 1 4 0 0 10 0 10 10 0 10 0 1 4 5 5 15 5 15 15 5 15");
+  run_line("MEASD 1 0.5 0.25 1 3 0 0 1.5 0 0 1.5");
+  run_line("XMISC");
+  run_line("MKP 3 1 2 3");
+}
+
+#ifndef CX_FUZZAPI_NO_MAIN
 int main(int argc, char** argv) {
   long timeout_ms = 10000, rss_lim = 2048; bool nofork = false;
   for (int i = 1; i < argc; ++i) {
@@ -497,32 +572,17 @@ int main(int argc, char** argv) {
     else if (a == "--nofork") nofork = true;
   }
   std::ios::sync_with_stdio(false);
-  // warm-up: lazily initialised runtime state (locale caches, iostream) is created before accounting starts
-  run_line("B64 1 0 1 0 3 0 1 4 0 0 10 0 10 10 0 10 0 1 4 5 5 15 5 15 15 5 15");
-  run_line("MEASD 1 0.5 0.25 1 3 0 0 1.5 0 0 1.5");
-  run_line("XMISC");
-  run_line("MKP 3 1 2 3");
+  warm_up();
   std::string line;
   while (std::getline(std::cin, line)) {
     if (line.empty()) { std::cout << "OK empty 0 -\n"; continue; }
-    double t0 = now_ms();
     if (nofork) {
+      double t0 = now_ms();
       int rc = run_line(line);
       std::cout << (rc ? "EXC " : "OK ") << g_ent << ' ' << (long)(now_ms() - t0) << ' ' << g_out << std::endl;
       continue;
     }
-    std::cout.flush();
-    int po[2], pe[2];
-    if (pipe(po) != 0 || pipe(pe) != 0) { std::perror("pipe"); return 3; }
-    pid_t pid = fork();
-    if (pid < 0) { std::perror("fork"); return 3; }
-    if (pid == 0) {
-      close(po[0]); close(pe[0]);
-      dup2(pe[1], 2); close(pe[1]);
-      g_announce_fd = po[1];
-      struct rlimit rl; rl.rlim_cur = rl.rlim_max = 0; setrlimit(RLIMIT_CORE, &rl);
-      // hang detection is by CPU time (robust against a loaded machine): SIGXCPU after timeout_ms of CPU, SIGKILL 2 s later
-      rl.rlim_cur = (rlim_t)std::max(1L, (timeout_ms + 999) / 1000); rl.rlim_max = rl.rlim_cur + 2; setrlimit(RLIMIT_CPU, &rl);
+    Verdict v = supervise(line, timeout_ms, rss_lim, [&](int out_fd) -> int {
 #if HAVE_ASAN
       size_t a0 = __sanitizer_get_current_allocated_bytes();
 #endif
@@ -530,50 +590,15 @@ int main(int argc, char** argv) {
       int code = rc ? 10 : 0;
 #if HAVE_ASAN
       size_t a1 = __sanitizer_get_current_allocated_bytes();
-      if (a1 != a0) {
-        // something is still allocated: ask LeakSanitizer whether it is unreachable (a leak) or merely cached
-        if (__lsan_do_recoverable_leak_check()) code = 77;
-      }
+      // something is still allocated: ask LeakSanitizer whether it is unreachable (a leak) or merely cached
+      if (a1 != a0 && __lsan_do_recoverable_leak_check()) code = 77;
 #endif
-      ssize_t w = write(po[1], g_out, std::strlen(g_out)); (void)w;
-      close(po[1]);
-      _exit(code);
-    }
-    close(po[1]); close(pe[1]);
-    std::string so, se; bool eo = false, ee = false; const char* killed = nullptr;
-    long peak = 0; double next_rss = t0 + 5;
-    while (!(eo && ee)) {
-      struct pollfd fds[2] = {{po[0], POLLIN, 0}, {pe[0], POLLIN, 0}};
-      int pr = poll(fds, 2, 10);
-      char buf[8192];
-      if (pr > 0) {
-        if (!eo && (fds[0].revents & (POLLIN | POLLHUP))) { ssize_t n = read(po[0], buf, sizeof buf); if (n <= 0) eo = true; else so.append(buf, (size_t)n); }
-        if (!ee && (fds[1].revents & (POLLIN | POLLHUP))) { ssize_t n = read(pe[0], buf, sizeof buf); if (n <= 0) ee = true; else if (se.size() < (1u << 20)) se.append(buf, (size_t)n); }
-      }
-      double now = now_ms();
-      if (!killed && now >= next_rss) { long r = rss_mb(pid); if (r > peak) peak = r; next_rss = now + 20; if (r > rss_lim) { killed = "MEM"; kill(pid, SIGKILL); } }
-      if (!killed && now - t0 > 8.0 * timeout_ms) { killed = "HANG"; kill(pid, SIGKILL); }   // wall-clock backstop (blocked child)
-    }
-    close(po[0]); close(pe[0]);
-    int st = 0; waitpid(pid, &st, 0);
-    long ms = (long)(now_ms() - t0);
-    // child output: zero or more "@entry\n" announcements followed by the result text
-    std::string ent = "?", det = so;
-    while (!det.empty() && det[0] == '@') { size_t nl = det.find('\n'); if (nl == std::string::npos) break; ent = det.substr(1, nl - 1); det = det.substr(nl + 1); }
-    if (ent == "?" || ent.empty()) { Toks t(line); ent = t.more() ? "cmd." + t.next() : "?"; }   // died while parsing: use the command word
-    bool san = se.find("runtime error:") != std::string::npos || se.find("ERROR: AddressSanitizer") != std::string::npos ||
-               se.find("ERROR: LeakSanitizer") != std::string::npos || se.find("Sanitizer") != std::string::npos;
-    const char* status;
-    std::string detail;
-    if (killed) { status = killed; detail = "rss_peak_mb=" + std::to_string(peak) + " " + flat(se, 1500); }
-    else if (WIFSIGNALED(st) && (WTERMSIG(st) == SIGXCPU || WTERMSIG(st) == SIGKILL)) { status = "HANG"; detail = "cpu-limit signal=" + std::to_string(WTERMSIG(st)) + " " + flat(se, 1500); }
-    else if (WIFEXITED(st) && WEXITSTATUS(st) == 77) { status = "LEAK"; detail = flat(se, 6000); }
-    else if (san) { status = "SAN"; detail = "exit=" + std::to_string(WIFEXITED(st) ? WEXITSTATUS(st) : -WTERMSIG(st)) + " " + flat(se, 6000); }
-    else if (WIFEXITED(st) && WEXITSTATUS(st) == 0) { status = "OK"; detail = det; }
-    else if (WIFEXITED(st) && WEXITSTATUS(st) == 10) { status = "EXC"; detail = det; }
-    else { status = "CRASH"; detail = (WIFSIGNALED(st) ? "signal=" + std::to_string(WTERMSIG(st)) : "exit=" + std::to_string(WEXITSTATUS(st))) + " " + flat(se, 1500); }
-    std::cout << status << ' ' << ent << ' ' << ms << ' ' << detail << '\n';
+      ssize_t w = write(out_fd, g_out, std::strlen(g_out)); (void)w;
+      return code;
+    });
+    std::cout << v.status << ' ' << v.ent << ' ' << v.ms << ' ' << v.detail << '\n';
   }
   std::cout.flush();
   return 0;
 }
+#endif
